@@ -7,7 +7,7 @@ once and mutates nothing, an update of a cached timestamp is still accepted.
 import ast
 
 from ..model import dotted, unparse, norm, walk_no_nested
-from ..rulelib import Ctx, short, resolve_copies
+from ..rulelib import Ctx, short, resolve_copies, nodes_calling
 from ..cachemodel import CacheModel
 from .c02 import rule_delta, rule_lockset
 
@@ -286,3 +286,66 @@ def run(check):
   else:
     r_cnt.violate('overflow not counted', 'carbon.events:<module>', None, 'no handler registered on events.cacheOverflow '
                   'increments the cache.overflow counter', construct='cacheOverflow.addHandler(... cache.overflow ...)')
+  rule_growth_everywhere(check, cx, cm, r_grow)
+  rule_feed_total(check, cx, check.rule('R-C10-feed-total', 1, 'the pipeline stage hands every datapoint to cache.store(); nothing is refused in front of it'))
+
+
+def rule_growth_everywhere(check, cx, cm, rule):
+  """EVERY statement of _MetricCache that increases self.size - in store() or in any method added later (a 'requeue', a
+  bulk load) - is dominated by the False outcome of an is_full test: the inductive bound speaks about all growth sites."""
+  def notfull_edge(src, lab, dst):
+    if not isinstance(lab, tuple):
+      return False
+    pol, t = lab
+    neg = False
+    while isinstance(t, ast.UnaryOp) and isinstance(t.op, ast.Not):
+      t, neg = t.operand, not neg
+    if isinstance(t, ast.Attribute) and t.attr == 'is_full':
+      return pol == ('T' if neg else 'F')
+    return False
+  todo = [(name, m, {m.params[0]}) for name, m in sorted(cm.methods.items())]
+  for f in check.repo.all_functions():
+    if (f.cls is not None and f.cls.name == cm.cls.name) or isinstance(f.node, ast.Lambda):
+      continue
+    fi = cx.inl(f)
+    # a method of the cache spliced into a caller elsewhere (cache.requeue(...) inside the writer): the receiver is the caller's name
+    recv = {t.id for st in ast.walk(fi.node) if isinstance(st, ast.Assign) and isinstance(st.value, ast.Call) and
+            (dotted(st.value.func) or '').split('.')[-1] == 'MetricCache' for t in st.targets if isinstance(t, ast.Name)}
+    if recv:
+      todo.append((f.qualname, fi, recv))
+  for name, m, receivers in todo:
+    g = cx.cfg(m)
+    for n in g.nodes:
+      a = n.ast
+      if n.kind == 'stmt' and isinstance(a, ast.AugAssign) and isinstance(a.op, ast.Add) and isinstance(a.target, ast.Attribute) and \
+         a.target.attr == 'size' and isinstance(a.target.value, ast.Name) and a.target.value.id in receivers:
+        if g.dominated_by_edge(n, notfull_edge):
+          rule.ok('%s(): `%s` only after is_full was False' % (name, short(a, 30)), m.loc(a))
+        else:
+          rule.violate('growth not gated by is_full', m, a, '%s() increases self.size on a path that did not pass the False outcome '
+                       'of an is_full test: datapoints stored through it take the cache past CACHE_SIZE_HARD_MAX' % name)
+      elif n.kind == 'stmt' and isinstance(a, ast.Assign) and any(isinstance(t, ast.Attribute) and t.attr == 'size' and
+                                                                 isinstance(t.value, ast.Name) and t.value.id in receivers for t in a.targets) \
+          and name != '__init__' and not (isinstance(a.value, ast.Constant) and a.value.value == 0):
+        rule.violate('size assigned', m, a, '%s() assigns self.size (`%s`): growth must go through the gated `+= 1`' % (name, short(a, 40)))
+
+
+def rule_feed_total(check, cx, rule):
+  """CacheFeedingProcessor.process hands EVERY datapoint to cache.store(): the decision whether a datapoint is a new key
+  (refused when full) or an update of a cached timestamp (accepted even when full) is store()'s, taken under the lock - a
+  shortcut in front of it (`if cache.is_full: return`) drops updates and signals overflow for them."""
+  fn = cx.fn('carbon.cache', 'CacheFeedingProcessor.process')
+  if not rule.require(fn is not None, 'CacheFeedingProcessor.process not found'):
+    return
+  g = cx.cfg(fn)
+  stores = nodes_calling(g, lambda c: cx.calls_method(c, fn, {'_MetricCache'}, 'store'))
+  if not rule.require(bool(stores), 'no cache.store() call found in CacheFeedingProcessor.process'):
+    return
+  if g.exit in g.reach([g.entry], removed_nodes=stores, normal_only=True):
+    p = g.path([g.entry], g.exit, removed_nodes=stores, normal_only=True)
+    last = [x for x in (p or []) if x.ast is not None]
+    rule.violate('datapoint dropped in front of store()', fn, last[-1].ast if last else fn.node,
+                 'process() can return without calling cache.store(): whether a datapoint is refused is decided by store() '
+                 '(an update of a cached timestamp is accepted even when the cache is full)', path=g.describe_path(p))
+  else:
+    rule.ok('every path through process() reaches cache.store()', fn.loc(stores[0].ast))
